@@ -757,6 +757,25 @@ pub fn run(run: &'static Run) {
     // every transition of the state-graph scenarios is a totality check as well (the engine tags panics with C09): run the
     // liquidity scenarios of C16 (incl. the testnet history that creates and empties ERG/SYM before it becomes built-in) and
     // the request / spelling scenarios of C15 here, so that a panic on such a history is reported by this check
+    // far heights: the halving count reaches the width of the shifted integer at block 128,950,000
+    {
+        let mut cfg = AlphaCfg::base();
+        cfg.per_denom = 1;
+        cfg.adversarial = false;
+        cfg.pairs = false;
+        cfg.faucets = false;
+        cfg.mints = false;
+        cfg.splits = false;
+        cfg.burns = false;
+        cfg.max_txs_per_block = 1;
+        cfg.seal_actions = vec![None, Some(action_dest(3))];
+        for (name, h) in [("custom02-far-height-21950000", 21_949_998u64), ("custom02-far-height-128950000", 128_949_998)] {
+            let mut s = sc(name, NetID::Custom02, 0, cfg.clone(), 5);
+            s.pre = vec![Action::Jump(h)];
+            let st = run_scenario(run, &s, 100_000);
+            run.set(&format!("engine_scenario:{}", s.name), json!({"depth_bound_completed": st.depth_completed, "unique_states": st.states, "transitions": st.transitions}));
+        }
+    }
     for sc in crate::props::c16::scenarios(false).into_iter().chain(crate::props::c15::scenarios(false).into_iter().take(2)) {
         let st = run_scenario(run, &sc, 400_000);
         run.set(&format!("engine_scenario:{}", sc.name), json!({"depth_bound_completed": st.depth_completed, "unique_states": st.states, "transitions": st.transitions}));
